@@ -1,87 +1,28 @@
-import Model
+import Driver.Slots
 /-!
 Line-protocol driver: one request per stdin line, one answer per stdout line.
 Unknown or ill-formed requests are answered `bad-op` (never defaulted).
+Each `Driver/X.lean` contributes `(commands, handler)`; `dispatch` picks by the first token.
 -/
-open SP
+open SPD
 
-def parseInt? (s : String) : Option Int := s.toInt?
-def parseNat? (s : String) : Option Nat := s.toNat?
+def handlers : List (List String × (List String → String)) := [
+  (slotsCmds, handleSlots)
+]
 
-def showRes (r : Res Int) : String :=
-  match r with
-  | .ok v => s!"ok {v}"
-  | .indexError => "IndexError"
-  | .overflow => "Overflow"
-
-def parseBool? (s : String) : Option Bool :=
-  if s == "1" then some true else if s == "0" then some false else none
-
-def parsePat (s : String) : Option (List Bool) :=
-  s.toList.mapM (fun c => if c == '1' then some true else if c == '0' then some false else none)
-
-def showPairs (l : List (Int × Int)) : String :=
-  " ".intercalate (l.map (fun p => s!"{p.1},{p.2}"))
-
-def ints? (l : List String) : Option (List Int) := l.mapM parseInt?
-
-def handle (toks : List String) : String :=
+def dispatch (toks : List String) : String :=
   match toks with
-  | ["civil", d] =>
-    match parseInt? d with
-    | some d =>
-      let (y, m, dd) := civilFromDays d
-      let (iy, iw) := isoYearWeek d
-      s!"{y} {m} {dd} {weekdayOfDay d} {iy} {iw} {daysFromCivil y m dd}"
+  | [] => "bad-op"
+  | c :: _ =>
+    match handlers.find? (fun h => h.1.contains c) with
+    | some h => h.2 toks
     | none => "bad-op"
-  | ["idx2t", impl, s, e, g, i, f] =>
-    match ints? [s, e, g, i], parseBool? f with
-    | some [s, e, g, i], some f =>
-      if g ≤ 0 then "bad-op" else
-      let b : Board := ⟨s, e, g⟩
-      if impl == "py" then showRes (pyIdxToDate b i f)
-      else if impl == "cy" then showRes (cyIdxToDate b i f) else "bad-op"
-    | _, _ => "bad-op"
-  | ["t2idx", impl, s, e, g, t, f] =>
-    match ints? [s, e, g, t], parseBool? f with
-    | some [s, e, g, t], some f =>
-      if g ≤ 0 then "bad-op" else
-      let b : Board := ⟨s, e, g⟩
-      if impl == "py" then showRes (pyDateToIdx b t f)
-      else if impl == "cy" then showRes (cyDateToIdx b t f) else "bad-op"
-    | _, _ => "bad-op"
-  | ["size", s, e, g] =>
-    match ints? [s, e, g] with
-    | some [s, e, g] => if g ≤ 0 then "bad-op" else s!"{(Board.mk s e g).size}"
-    | _ => "bad-op"
-  | ["pidx2t", impl, s, g, i] =>
-    match ints? [s, g, i] with
-    | some [s, g, i] =>
-      if g ≤ 0 then "bad-op" else
-      if impl == "py" then s!"ok {(Grid.mk s g).time i}"
-      else if impl == "cy" then showRes (cyProjIdxToDate ⟨s, g⟩ i) else "bad-op"
-    | _ => "bad-op"
-  | ["pt2idx", impl, s, g, t] =>
-    match ints? [s, g, t] with
-    | some [s, g, t] =>
-      if g ≤ 0 then "bad-op" else
-      if impl == "py" then s!"ok {(Grid.mk s g).idx t}"
-      else if impl == "cy" then showRes (cyProjDateToIdx ⟨s, g⟩ t) else "bad-op"
-    | _ => "bad-op"
-  | ["scan", impl, pat, s, e, m] =>
-    match parsePat pat, ints? [s, e], parseNat? m with
-    | some pat, some [s, e], some m =>
-      if m == 0 || s < 0 || e < 0 || s ≥ pat.length || e ≥ pat.length then "bad-op" else
-      if impl == "py" then "iv " ++ showPairs (pyScan pat s e m)
-      else if impl == "cy" then "iv " ++ showPairs (cyScan pat s e m) else "bad-op"
-    | _, _, _ => "bad-op"
-  | _ => "bad-op"
 
 partial def loop (h : IO.FS.Stream) (out : IO.FS.Stream) : IO Unit := do
   let line ← h.getLine
   if line.isEmpty then return ()
   let toks := (line.trimAscii.toString.splitOn " ").filter (· ≠ "")
-  out.putStrLn (handle toks)
+  out.putStrLn (dispatch toks)
   loop h out
 
 def main : IO Unit := do
